@@ -533,3 +533,30 @@ def r03_6(ctx):
                 "Ipv6Cidr::new on a crafted router advertisement", body=v, bb=bad[0][0])
     else:
         ctx.ok(('is_valid_prefix_info', 'prefix_len<=128'), sample=dict(fn='is_valid_prefix_info', clause='prefix_len <= 128'))
+
+
+@rule('R09.8', ['C09'], floor=3, clause='closing a UDP socket clears its endpoint and resets both packet queues: a datagram accepted under one binding is never transmitted under another (or from port 0)')
+def r09_8(ctx):
+    F = ctx.F
+    U = 'socket::udp::Socket'
+    b = ctx.method(U, 'close')
+    rs = F.method(PB, 'reset')
+    got = set()
+    for x in b.calls():
+        if b.callee_name(x[1]) == rs.key:
+            o = F.origin.operand(b, x[2][0], x[0], len(b.blocks[x[0]]['s']))
+            for l in leafs(o):
+                if l.startswith(f"F:{U}."):
+                    got.add(l.rsplit('.', 1)[-1])
+    for fld in ('tx_buffer', 'rx_buffer'):
+        if fld in got:
+            ctx.ok(('udp::close', fld), sample=dict(fn='udp::Socket::close', resets=fld))
+        else:
+            ctx.bad(f"udp::close|{fld}-not-reset", f"udp::Socket::close() does not reset {fld}: "
+                    + ("queued datagrams are later sent from port 0 or from the next binding's port" if fld == 'tx_buffer' else "datagrams received under the old binding are delivered to the new one"),
+                    body=b)
+    ws = [w for w in F.field_writes() if w['fn'] == b.key and w['adt'] == U and w['field'] == 'endpoint']
+    if ws:
+        ctx.ok(('udp::close', 'endpoint'))
+    else:
+        ctx.bad("udp::close|endpoint-kept", "udp::Socket::close() keeps the bound endpoint", body=b)
